@@ -1,4 +1,5 @@
 """C04 — end-of-stream and abort are relayed faithfully (buffered I/O mode)."""
+import harness
 from specs import relay
 
 
